@@ -2,9 +2,11 @@ import Reduino.Driver.All
 /- Line-protocol driver: one request per line on stdin, one canonical answer per line on stdout. -/
 open Reduino.Driver
 
+def handlers : List (List String → Option String) := [handleHost, handleCore, handleTool]
+
 def handle (line : String) : String :=
   let fields := line.splitOn "|"
-  match handleHost fields with
+  match handlers.findSome? (fun h => h fields) with
   | some r => r
   | none => "bad-request"
 
